@@ -112,6 +112,18 @@ def canonicalise(tree):
             i = 0
             while i < len(block):
                 st = block[i]
+                if isinstance(st, ast.Assign) and len(st.targets) == 1 and isinstance(st.targets[0], ast.Tuple) and isinstance(st.value, ast.Attribute) \
+                        and isinstance(st.value.value, ast.Name) and all(isinstance(t, ast.Name) for t in st.targets[0].elts) \
+                        and len({t.id for t in st.targets[0].elts}) == len(st.targets[0].elts) and st.value.value.id not in {t.id for t in st.targets[0].elts}:
+                    # samples, labels = self._data  ->  samples = self._data[0]; labels = self._data[1]   (analysis view of the unpacking)
+                    import copy as _cp
+                    block[i:i + 1] = [ast.copy_location(ast.Assign(targets=[ast.Name(id=t.id, ctx=ast.Store())],
+                                                                   value=ast.Subscript(value=_cp.deepcopy(st.value), slice=ast.Constant(value=k_), ctx=ast.Load()),
+                                                                   lineno=st.lineno), st) for k_, t in enumerate(st.targets[0].elts)]
+                    for x_ in block[i:i + len(st.targets[0].elts)]:
+                        ast.fix_missing_locations(x_)
+                    i += len(st.targets[0].elts)
+                    continue
                 if isinstance(st, ast.Assign) and len(st.targets) == 1 and isinstance(st.targets[0], ast.Tuple) and isinstance(st.value, ast.Tuple) \
                         and len(st.targets[0].elts) == len(st.value.elts) and all(isinstance(t, ast.Attribute) and isinstance(t.value, ast.Name) for t in st.targets[0].elts) \
                         and all(isinstance(v, (ast.Constant, ast.Dict, ast.List, ast.Set, ast.Tuple)) and not any(isinstance(x, (ast.Name, ast.Attribute, ast.Call)) for x in ast.walk(v))
@@ -273,11 +285,14 @@ def sink_returns(tree):
 
 
 def _pure_self_chain(e, selfname):
-    """self.a / self.a.b ... (attribute chain on the receiver, no call, no subscript)"""
+    """self.a / self.a.b / self.a[0] ... (attribute chain on the receiver, constant subscripts allowed, no call)"""
     depth = 0
-    while isinstance(e, ast.Attribute):
+    while isinstance(e, (ast.Attribute, ast.Subscript)):
+        if isinstance(e, ast.Subscript) and not (isinstance(e.slice, ast.Constant) and isinstance(e.slice.value, int)):
+            return False
+        if isinstance(e, ast.Attribute):
+            depth += 1
         e = e.value
-        depth += 1
     return depth >= 1 and isinstance(e, ast.Name) and e.id == selfname
 
 
